@@ -297,7 +297,8 @@ def run(chk):
                 'modification position x unresolvable / malformed values; non-trivial = the string is accepted with at least one '
                 'modification or several chains (exhaustive), longer than 3 characters (oracle)')
     if not quick:
-        chk.leanchecker(['PeptVerif.Props.C09', 'PeptVerif.Model.Parser', 'PeptVerif.Model.ModText'])
+        chk.leanchecker(['PeptVerif.Props.C09', 'PeptVerif.Lemmas.ParserTotal', 'PeptVerif.Model.Serialize', 'PeptVerif.Model.Parser',
+                         'PeptVerif.Model.ModText'])
     return chk.finish(classify)
 
 
